@@ -52,7 +52,7 @@ def operands(r, dim, fl, sig, n=5, seed_tag=""):
 def c16_run(ctx):
     r = C.rng(ctx.seed, "c16")
     problems, n_calls, samples = [], 0, []
-    sigs = C.ALLSIGS if ctx.tier == "thorough" else C.SIG2 + r.sample(C.SIG3, 3) + r.sample(C.SIG4, 4)
+    sigs = C.ALLSIGS          # every stored system in every tier
     for sig in sigs:
         dim = len(sig) + 1
         fl = r.choice("gm")
@@ -155,7 +155,7 @@ def vec_components(v):
 def c17_run(ctx):
     r = C.rng(ctx.seed, "c17")
     problems, n, samples = [], 0, []
-    sigs = C.ALLSIGS if ctx.tier == "thorough" else r.sample(C.ALLSIGS, 8)
+    sigs = C.ALLSIGS          # every stored system in every tier
     for sig in sigs:
         dim = len(sig) + 1
         for fl in "gm":
@@ -321,7 +321,7 @@ def structure(a):
 def c18_run(ctx):
     r = C.rng(ctx.seed, "c18")
     problems, n, samples = [], 0, []
-    sigs = C.ALLSIGS if ctx.tier == "thorough" else C.SIG3 + r.sample(C.SIG2 + C.SIG4, 5)
+    sigs = C.ALLSIGS          # every stored system in every tier
     for sig in sigs:
         dim = len(sig) + 1
         fl = r.choice("gm")
@@ -496,7 +496,7 @@ def raw_momentum_records(ctx):
 def c19_run(ctx):
     r = C.rng(ctx.seed, "c19")
     problems, n, samples = [], 0, []
-    sigs = C.ALLSIGS if ctx.tier == "thorough" else r.sample(C.ALLSIGS, 10)
+    sigs = C.ALLSIGS          # every stored system in every tier
     for sig in sigs:
         dim = len(sig) + 1
         for fl in "gm":
